@@ -8,7 +8,7 @@
 #define CAP 4                     /* max entries of a stored sparse row/column (<= 8 = SVEC_LOOKUP_MAX) */
 #endif
 #ifndef DIM
-#define DIM 16                    /* max number of rows / columns of the solution vectors */
+#define DIM 8                     /* max number of rows / columns of the solution vectors */
 #endif
 #define INF SOPLEX_DEFAULT_INFINITY
 
